@@ -233,6 +233,12 @@ func (o *Oracle) judgeL1(e *Exchange) {
 		}
 		return
 	}
+	// "handled under the … upstream whose from matches its Host": a Host the configuration routes is never told that
+	// it matches nothing (421 is the proxy's answer for Hosts without a route, and no handler of an upstream emits it)
+	o.res.cover("C13.A1|routed|" + pol.Type)
+	if e.Status == 421 && len(e.Arrivals) == 0 && e.Injected == "" {
+		o.violate(e, "C13.A1-backend-of-matching-route", fmt.Sprintf("Host %q matches the %s route of service %s but was answered 421 as if no route matched", e.Host, pol.Type, pol.Service), "type", pol.Type, "facet", "routed-host-misdirected")
+	}
 	o.judgeGroupQuestion(e, pol)
 	o.judgeHardening(e, pol)
 	o.judgePages(e)
